@@ -19,7 +19,10 @@ MANIFEST = dict(
          "unique -> replace=False on the passed/seeded generator on every returning path (tests on imax/nrand the flags do not decide are "
          "explored both ways); box containment proper: for zero-width, proper and full boxes the longitude term (and the latitude term in "
          "the coordinate cos(90+dec)) lies between the requested limits for every deviate, decided exactly for forms affine in the deviate "
-         "and the limits (vertex extrema over the box classes, selections and modulo operations resolved per class).",
+         "and the limits (vertex extrema over the box classes, selections and modulo operations resolved per class); reproducibility: every package "
+         "function that draws on behalf of a sampler is handed the sampler's generator (generator flow over the call graph); the cartesian output "
+         "of the box sampler is the unit vector of the equatorial output for the same deviates (polynomial normal form modulo the circle "
+         "relations); the stored cumulative table and abscissae hold every grid point (no element selection on top of them).",
     note="Not decided: distributional correctness, containment numerically. Trusted: numpy Generator/RandomState APIs, scipy "
          "cumulative_trapezoid, sympy normaliser.",
     technique="static analysis: abstract interpretation over a symbolic term domain (draws as uninterpreted deviates), who-may-call RNG discipline, AST provenance rules",
@@ -32,7 +35,8 @@ GLOBAL_RNG_OK = {"RandomState", "default_rng", "Generator", "SeedSequence"}
 
 # rules that keep their verdict however the code is laid out (decided by term equality, effect analysis or dominance over
 # resolved calls); every other rule of this check is a template rule (vcheck.core.Check.obt)
-SEMANTIC = ('R19.cap', 'R19.chol', 'R19.gen', 'R19.ind', 'R19.box::randsphere::ra-inside-box', 'R19.box::randsphere::dec-inside-box')
+SEMANTIC = ('R19.cap', 'R19.chol', 'R19.gen', 'R19.ind', 'R19.box::randsphere::ra-inside-box', 'R19.box::randsphere::dec-inside-box',
+            'R19.box::randsphere::generator-forwarded', 'R19.box::randsphere::xyz-system-converts-same-points')
 
 
 def run(chk):
@@ -190,7 +194,15 @@ def randsphere(chk, repo):
                 all(len(c.args) == 2 and symx.equal(c.args[0], res[0])[0] and symx.equal(c.args[1], res[1])[0] for c in comps)
     except symx.Unsupported:
         ok = None
-    chk.ob("R19.box", "randsphere::xyz-system-converts-same-points", ok, fi.where(), "system='xyz' returns eq2xyz(ra, dec) of the generated points")
+    why = ""
+    if ok is None and isinstance(res, tuple) and len(res) == 2:
+        # not literally eq2xyz(ra, dec): decided on the values.  With the converter followed too, the three returned terms must be
+        # the unit vector of the point (ra, dec) that system='eq' returns for the same deviates
+        ok, why = _xyz_of_same_point(repo, fi, res, {"num": num, "ra_range": [r0, r1], "dec_range": [d0, d1], "rng": rng},
+                                     {"ra_range": [r0, r1], "dec_range": [d0, d1]})
+    chk.ob("R19.box", "randsphere::xyz-system-converts-same-points", ok, fi.where(),
+           "system='xyz' returns eq2xyz(ra, dec) of the generated points: the unit vectors of the same points inside the box%s" % why)
+    generator_forwarded(chk, repo, "R19.box", fi, "rng")
     # ranges are validated
     cr = repo.func(CO + "_check_range")
     cfgr = cfg_of(cr)
@@ -198,6 +210,82 @@ def randsphere(chk, repo):
     chk.ob("R19.box", "_check_range::outside-allowed-rejected", ok, cr.where(), "ranges outside the allowed interval are rejected")
     calls = {norm(x) for x in walk_no_nested(fi.node) if isinstance(x, ast.Call) and call_name(x) == "_check_range"}
     chk.ob("R19.box", "randsphere::allowed-intervals", calls == {"_check_range(ra_range, [0.0, 360.0])", "_check_range(dec_range, [-90.0, 90.0])"}, fi.where(), "allowed intervals [0,360] and [-90,90] (%s)" % sorted(calls))
+
+
+# --------------------------------------------------------------------------
+# the cartesian output is the unit vector of the point the equatorial output names
+#
+# ra and dec are the terms system='eq' returns, dec = acos(C) - 90 deg with C the (clipped) sampled cosine.  With A = ra in radians
+# the unit vector is (cos dec cos A, cos dec sin A, sin dec) = (s cos A, s sin A, -C) with s = sqrt(1 - C^2) >= 0.  Returned terms
+# are brought to polynomials in (C, s, cos A, sin A) modulo s^2 + C^2 = 1 and cos^2 A + sin^2 A = 1 (a Groebner basis, so the
+# remainder is a normal form); since every (C, A) is produced by some box and deviate and a polynomial that vanishes on an open
+# piece of that torus vanishes identically, a non-zero remainder of the difference is a proof that the vectors differ for some
+# box and deviate, a zero remainder that they agree for all.  Terms that do not reduce to such polynomials are compared with the
+# general normaliser (equal: held; otherwise no verdict).
+# --------------------------------------------------------------------------
+
+def _xyz_of_same_point(repo, fi, res_eq, args, pins):
+    opaque = {CO + "atbound", CO + "atbound2", CO + "_check_range"}
+    se_e = _RefEval(repo, opaque=opaque)
+    se_x = _RefEval(repo, opaque=opaque)
+    try:
+        res_e = se_e.run(fi, dict(args), {"system": "eq"}, pins=dict(pins))
+        got = se_x.run(fi, dict(args), {"system": "xyz"}, pins=dict(pins))
+    except symx.Unsupported as ex:
+        return None, " (system='xyz' not evaluated: %s)" % ex
+    if not (isinstance(got, tuple) and all(isinstance(c, sp.Basic) for c in got)):
+        return None, " (system='xyz' returns %s)" % str(got)[:120]
+    if len(got) != 3:
+        return False, ": it returns %d values instead of x, y, z" % len(got)
+    # the same deviates must be meant: both evaluations draw the same things in the same order
+    if [d[1:5] for d in _draws(se_e)] != [d[1:5] for d in _draws(se_x)] or not (isinstance(res_e, tuple) and len(res_e) == 2):
+        return None, " (system='xyz' draws differently from system='eq': the deviates are not matched)"
+    ra, dec = res_e
+    A = sp.expand(ra * sp.pi / 180)
+    D = dec * sp.pi / 180
+    want = (sp.cos(D) * sp.cos(A), sp.cos(D) * sp.sin(A), sp.sin(D))
+    y = sp.expand((dec + 90) * sp.pi / 180)
+    names = ("x", "y", "z")
+    if isinstance(y, sp.acos):
+        C = y.args[0]
+        T, c, s, ca, sa = sp.symbols("T_colat c_colat s_colat cosA sinA", real=True)
+
+        def nf(t):
+            t = sp.expand(sp.sympify(t)).xreplace({sp.acos(C): T}).xreplace({C: c})      # (expanded as y was: C has the same shape)
+
+            def trig(e):
+                a = sp.expand(e.args[0])
+                if not a.has(T):
+                    if sp.expand(a - A) == 0:
+                        return ca if isinstance(e, sp.cos) else sa
+                    if sp.expand(a + A) == 0:
+                        return ca if isinstance(e, sp.cos) else -sa
+                    return e.func(a)
+                return sp.expand_trig(e.func(a)).xreplace({sp.cos(T): c, sp.sin(T): s})
+            t = t.replace(lambda e: isinstance(e, (sp.sin, sp.cos)), trig)
+            t = t.replace(lambda e: isinstance(e, sp.Pow) and e.exp == sp.Rational(1, 2) and sp.expand(e.base - (1 - c ** 2)) == 0, lambda e: s)
+            t = sp.expand(t)
+            if t.free_symbols - {c, s, ca, sa} or not t.is_polynomial(c, s, ca, sa):
+                return None
+            return sp.reduced(t, [s ** 2 + c ** 2 - 1, sa ** 2 + ca ** 2 - 1], s, sa, c, ca, order="lex")[1]
+        try:
+            forms = [(nf(g), nf(w_)) for g, w_ in zip(got, want)]
+        except Exception:
+            forms = [(None, None)]
+        if all(g is not None and w_ is not None for g, w_ in forms):
+            shown = {c: sp.Symbol("C"), s: sp.Symbol("sqrt(1-C^2)"), ca: sp.Symbol("cos(ra)"), sa: sp.Symbol("sin(ra)")}
+            for n_, (g, w_) in zip(names, forms):
+                if sp.expand(g - w_) != 0:
+                    return False, (": with C the sampled cosine (dec = acos(C) - 90 deg, so sin(dec) = -C) the returned %s is %s, but the point (ra, dec) that "
+                                   "system='eq' returns for the same deviates has %s = %s: the vector names a different point, which need not lie "
+                                   "inside the requested box" % (n_, g.xreplace(shown), n_, w_.xreplace(shown)))
+            return True, ""
+    try:
+        if all(symx.equal(g, w_)[0] for g, w_ in zip(got, want)):
+            return True, ""
+    except Exception:
+        pass
+    return None, " (the returned terms are not brought to a normal form: %s)" % str(got[2])[:120]
 
 
 # --------------------------------------------------------------------------
@@ -612,6 +700,104 @@ def _draw_sites(repo, fi, roles, seen=None):
     return out
 
 
+def _drawing_params(repo, tgt, _memo={}):
+    """the parameters of the package function tgt that it draws from (directly or through the package functions it hands them
+    to): a draw-method call has the parameter as receiver"""
+    key = (id(repo), tgt.qualname)
+    if key not in _memo:
+        _memo[key] = [p for p in tgt.params if not p.startswith("*")
+                      and any(g == "gen" for _, _, g, _ in _draw_sites(repo, tgt, {p: "gen"}, set()))]
+    return _memo[key]
+
+
+def _fresh_generator(repo, fi, a):
+    """the expression is None or builds a new generator (numpy.random.RandomState(...), default_rng(...)): not the caller's generator"""
+    if isinstance(a, ast.Constant) and a.value is None:
+        return True
+    if isinstance(a, ast.Call):
+        d = dotted_name(a.func)
+        full = repo.resolve_name(fi.module, d) if d else ""
+        return full.startswith("numpy.random.") and full.rsplit(".", 1)[-1] in GLOBAL_RNG_OK
+    return False
+
+
+def _generator_handoffs(repo, fi, roles, seen=None):
+    """every call, reachable from fi along the generator's flow, of a package function that draws from one of its parameters:
+    [(where, callee, parameter, True: bound to the generator of fi / False: left at its default, None, or a newly built generator /
+    None: bound to something the analysis does not follow)]"""
+    seen = set() if seen is None else seen
+    key = (fi.qualname, tuple(sorted(roles.items())))
+    if key in seen:
+        return []
+    seen.add(key)
+    cfg = cfg_of(fi)
+    view = cfg.view()
+    roles = dict(roles)
+    for n in cfg.nodes:
+        if n.ast is None or n.kind not in ("stmt", "loop", "with"):
+            continue
+        d, _ = cfg.defs_uses(n)
+        for v in d:
+            if v in roles:
+                ts = rules.controlling_tests(view, n)
+                if any(t == "%s is None" % v and lab == "T" for t, lab in ts):
+                    continue
+                roles[v] = "rebound"
+    out = []
+    for x in walk_no_nested(fi.node):
+        if not isinstance(x, ast.Call):
+            continue
+        d = dotted_name(x.func)
+        full = repo.resolve_name(fi.module, d) if d else None
+        if not (full and repo.has(full)):
+            continue
+        tgt = repo.func(full)
+        want = _drawing_params(repo, tgt)
+        if not want:
+            # the callee takes no generator; it may still reach a drawing function (a helper the sampler was split into)
+            out += _generator_handoffs(repo, tgt, {}, seen)
+            continue
+        params = [p for p in tgt.params if not p.startswith("*")]
+        bound = dict(zip(params, x.args))
+        bound.update({k.arg: k.value for k in x.keywords if k.arg})
+        spread = any(isinstance(a, ast.Starred) for a in x.args) or any(k.arg is None for k in x.keywords)
+        sub = {}
+        for p in want:
+            if p not in bound:
+                ok = None if spread else False
+                what = "left at its default"
+            else:
+                a = rules.expand(bound[p], fi.node)
+                if isinstance(a, ast.Name) and roles.get(a.id) == "gen":
+                    ok, what = True, norm(a)
+                    sub[p] = "gen"
+                elif _fresh_generator(repo, fi, a):
+                    ok, what = False, "bound to `%s`" % norm(a)
+                else:
+                    ok, what = None, "bound to `%s`" % norm(a)
+            out.append((fi.where(x), tgt.name, p, ok, what))
+        out += _generator_handoffs(repo, tgt, sub, seen)
+    return out
+
+
+def generator_forwarded(chk, repo, rule, fi, param):
+    """reproducibility: whatever fi draws through other package functions is drawn from the generator it was given"""
+    hand = _generator_handoffs(repo, fi, {param: "gen"})
+    bad = [h for h in hand if h[3] is False]
+    und = [h for h in hand if h[3] is None]
+    key = fi.name + "::generator-forwarded-to-drawing-callees"
+    if bad:
+        w, callee, p, _, what = bad[0]
+        chk.ob(rule, key, False, w, "equal seeded generators must give equal output: %s() draws from its parameter `%s`, which this call leaves %s instead of "
+               "passing on `%s`, so the points come from a generator the caller did not seed" % (callee, p, what.replace("left ", ""), param))
+    elif und:
+        w, callee, p, _, what = und[0]
+        chk.ob(rule, key, None, w, "%s() draws from its parameter `%s`, %s: not followed" % (callee, p, what))
+    else:
+        chk.ob(rule, key, True, fi.where(), "every package function that draws on behalf of %s is handed `%s` (%d call(s): %s)"
+               % (fi.name, param, len(hand), sorted({h[1] for h in hand})), nontrivial=bool(hand))
+
+
 def _try_run(se, fi, args, flags):
     try:
         return se.run(fi, args, flags), None
@@ -650,6 +836,8 @@ def randcap(chk, repo):
                 elif away.is_subset(s):
                     assume_direct["text:" + norm(node)] = True
     args = {"nrand": nrand, "ra": ra, "dec": dec, "rad": rad, "rng": rng}
+    # ---- reproducibility: the recursive / helper calls that draw are handed the passed generator
+    generator_forwarded(chk, repo, R, fi, "rng")
 
     def unrec(keys, why):
         for k in keys:
@@ -886,6 +1074,9 @@ T_, DOT, ROWADD, ROWADDN, COLADD, COL, AT_, SLICE, SHAPE, SIZE, LEN, RESHAPE, AP
 IDENT_FUNCS = {"numpy.array", "numpy.asarray", "numpy.atleast_1d", "numpy.atleast_2d", "numpy.asanyarray", "numpy.ascontiguousarray", "float", "int",
                "numpy.float64"}
 IDENT_METHODS = {"copy", "astype", "view"}
+BUILTIN_TYPES = {"bool", "int", "float", "complex", "object", "str"}
+SETITEM, INVERT, SL = Fn("SETITEM"), Fn("INVERT"), Fn("SL")
+CMP = {ast.Lt: Fn("CMP_lt"), ast.LtE: Fn("CMP_le"), ast.Gt: Fn("CMP_gt"), ast.GtE: Fn("CMP_ge"), ast.Eq: Fn("CMP_eq"), ast.NotEq: Fn("CMP_ne")}
 ARITH_FUNCS = {"numpy.add": ast.Add, "numpy.subtract": ast.Sub, "numpy.multiply": ast.Mult, "numpy.divide": ast.Div, "numpy.true_divide": ast.Div}
 
 
@@ -924,6 +1115,7 @@ class Mini:
         # truth value per atom and path (the same atom, or its negation, met again on the path keeps its value)
         self.forced = None                  # atom -> bool chosen for this path; None: no exploration (undecided tests have no verdict)
         self.trail = []                     # atoms first met on this path, in order, with the value taken
+        self.elementwise = False            # comparisons of array terms used as values are kept as terms (masks) instead of UNK
 
     # ---- ranks / broadcasting -------------------------------------------
     def rank(self, t):
@@ -1110,6 +1302,18 @@ class Mini:
                     self.assign(e, AT_(v, sp.Integer(i)), env, fi)
             else:
                 raise NoVerdict("cannot unpack %r at %s" % (v, fi.where(t)))
+        elif isinstance(t, ast.Subscript) and isinstance(t.value, ast.Name) and t.value.id in env and not isinstance(t.slice, ast.Tuple):
+            # part of a local array is overwritten: the local becomes SETITEM(old, where, value); a store into the whole of it
+            # (`a[:] = v`, `a[...] = v`) leaves the value stored
+            whole = isinstance(t.slice, ast.Constant) and t.slice.value is Ellipsis
+            it = ":" if whole else self.index_item(t.slice, env, fi)
+            if it == ":":
+                env[t.value.id] = v
+            elif it == "newaxis":
+                raise NoVerdict("store into `%s` at %s" % (norm(t), fi.where(t)))
+            else:
+                idx = SL(*it[1:]) if isinstance(it, tuple) else it
+                env[t.value.id] = SETITEM(term(env[t.value.id]), idx, term(v))
         else:
             raise NoVerdict("store into `%s` at %s" % (norm(t), fi.where(t)))
 
@@ -1247,6 +1451,8 @@ class Mini:
             full = self.repo.resolve_name(fi.module, e.id)
             if full != e.id or e.id in fi.module.funcs or e.id in fi.module.classes:
                 return sp.Symbol(full)
+            if e.id in BUILTIN_TYPES:
+                return sp.Symbol(e.id)      # a builtin type named as a value (dtype=bool)
             raise NoVerdict("unbound name `%s` at %s" % (e.id, fi.where(e)))
         if isinstance(e, ast.Attribute):
             k = norm(e)
@@ -1276,6 +1482,8 @@ class Mini:
                 return -v
             if isinstance(e.op, ast.UAdd):
                 return v
+            if isinstance(e.op, ast.Invert):
+                return INVERT(v)
             raise NoVerdict("unary operator at %s" % fi.where(e))
         if isinstance(e, ast.BinOp):
             a, b = self.ev(e.left, env, fi), self.ev(e.right, env, fi)
@@ -1286,6 +1494,16 @@ class Mini:
             return self.binop(e.op, a, b)
         if isinstance(e, (ast.BoolOp, ast.Compare)):
             t = self.truth(e, env, fi)
+            if t is None and self.elementwise and self.forced is None and isinstance(e, ast.Compare) and len(e.ops) == 1 and type(e.ops[0]) in CMP:
+                # an element-wise comparison used as a value (a mask): kept as a term; as a test it stays undecided
+                try:
+                    a, b = self.ev(e.left, env, fi), self.ev(e.comparators[0], env, fi)
+                except NoVerdict:
+                    return UNK
+                if isinstance(a, sp.Basic) and isinstance(b, sp.Basic) and (a.free_symbols or b.free_symbols) \
+                        and not any(str(s_).startswith("'") for s_ in (a.free_symbols | b.free_symbols)) \
+                        and not any(z in (NONE_T, sp.Symbol("True"), sp.Symbol("False")) for z in (a, b)):
+                    return CMP[type(e.ops[0])](a, b)
             return UNK if t is None else t
         if isinstance(e, ast.IfExp):
             t = self.truth(e.test, env, fi)
@@ -1506,17 +1724,104 @@ def _path_text(atoms):
     return " and ".join(("%s" % k) if v else ("not (%s)" % k) for k, v in sorted(atoms.items())) or "every input"
 
 
-def mini_run(repo, q, bind, state=None, ranks=None):
+def _partial_store(t):
+    """the term is (built from) an array part of which was overwritten, other than inside the index of an element selection: the
+    rules comparing terms have nothing to say about it"""
+    if not isinstance(t, sp.Basic):
+        return False
+    if fname(t) == "SETITEM":
+        return True
+    if fname(t) == "AT":
+        return _partial_store(t.args[0])
+    return any(_partial_store(a) for a in t.args)
+
+
+def mini_run(repo, q, bind, state=None, ranks=None, elementwise=False):
     """(value, final object state, evaluator) of the package function q; value is a NoVerdict instance when it was not evaluated"""
     mv = Mini(repo, ranks)
     mv.state.update(state or {})
+    mv.elementwise = elementwise
     try:
         v = mv.run(repo.func(q), bind)
     except NoVerdict as e:
         v = e
     except _Raised:
         v = NoVerdict("the selected path ends in raise")
+    if _partial_store(v):
+        v = NoVerdict("the result is an array that was overwritten in part: %s" % str(v)[:120])
+    for k, x in list(mv.state.items()):
+        if _partial_store(x):
+            mv.state[k] = NoVerdict("%s is an array that was overwritten in part" % k)
     return v, mv.state, mv
+
+
+# ---- element selections on top of a table ------------------------------------------------------------------------------------
+SELECTOR_FUNCS = {"numpy.unique": 0, "numpy.compress": 1, "numpy.extract": 1, "numpy.delete": 0, "numpy.take": 0, "numpy.trim_zeros": 0,
+                  "M_compress": 0, "M_take": 0}
+
+
+def _peel_selection(t, slices):
+    """(selections applied last, innermost operand): t = sel_k(... sel_1(operand)) where a selection is an element selection by a
+    non-literal index (a mask or an index array: AT(operand, idx)), a selecting library function, or -- when `slices` -- a slice
+    other than the whole.  Each selection is (text, index term or None)"""
+    sels = []
+    while isinstance(t, sp.Basic):
+        n = fname(t)
+        if n == "AT" and len(t.args) == 2 and not t.args[1].is_number:
+            used = sorted({fname(x) for x in sp.preorder_traversal(t.args[1]) if "." in fname(x)} |
+                          {"a `%s` comparison" % fname(x)[4:] for x in sp.preorder_traversal(t.args[1]) if fname(x).startswith("CMP_")})
+            sels.append(("a mask / index array" + (" computed with %s" % ", ".join(used) if used else " %s" % str(t.args[1])[:80]), t.args[1]))
+            t = t.args[0]
+        elif n in SELECTOR_FUNCS and len(t.args) > SELECTOR_FUNCS[n]:
+            k = SELECTOR_FUNCS[n]
+            rest = [a for i, a in enumerate(t.args) if i != k]
+            sels.append(("%s(...)" % (n[2:] if n.startswith("M_") else n), sp.Tuple(*rest) if rest else None))
+            t = t.args[k]
+        elif n == "AT" and len(t.args) == 2 and t.args[1].is_number and fname(t.args[0]) in SELECTOR_FUNCS and t.args[1] == 0:
+            t = t.args[0]           # unique(a, return_index=True)[0]
+        elif slices and n == "SLICE" and not (t.args[1] in (NONE_T, sp.Integer(0)) and t.args[2] == NONE_T and t.args[3] in (NONE_T, sp.Integer(1))):
+            sels.append(("the slice [%s]" % ":".join("" if a == NONE_T else str(a) for a in t.args[1:]), None))
+            t = t.args[0]
+        else:
+            break
+    return sels, t
+
+
+def _exact_mask(idx):
+    """the selecting index is decided by exact strict comparisons only (table increments against zero, neighbouring table values
+    against each other): for a positive density every grid point passes mathematically and whether one is dropped is a matter of
+    rounding -- not decided here"""
+    if idx is None:
+        return False
+    cmps = [x for x in sp.preorder_traversal(idx) if fname(x).startswith("CMP_")]
+    if not cmps or any("close" in fname(x) for x in sp.preorder_traversal(idx)):
+        return False
+    for c in cmps:
+        a, b = c.args
+        table = lambda z: any(fname(y) in ("CUMTRAPZ", "CUMSUM") for y in sp.preorder_traversal(z))
+        if fname(c) not in ("CMP_gt", "CMP_lt", "CMP_ne"):
+            return False
+        if not ((a == 0 and table(b)) or (b == 0 and table(a)) or (table(a) and table(b) and not (a - b).is_number)):
+            return False
+    return True
+
+
+def every_grid_point_kept(chk, rule, key, where, stored, data):
+    """stored: [(attribute, its selections)]; data: the input symbols.  No element selection may stand between the full table and
+    what is stored: the inverse map returns a grid point where u equals its cumulative value only if the point is in the table"""
+    sels = [(attr, text, idx) for attr, ss in stored for text, idx in ss]
+    if not sels:
+        chk.ob(rule, key, True, where, "the stored cumulative table and abscissae hold every grid point (no element selection is applied to them)")
+        return
+    attr, text, idx = sels[0]
+    dependent = idx is None or any(idx.has(d) for d in data)
+    if dependent and not _exact_mask(idx):
+        chk.ob(rule, key, False, where,
+               "every grid point must stay in the table (x(u) returns a grid point exactly where u equals its cumulative value and reaches the grid end at u=1): "
+               "%s keeps only the elements selected by %s%s, so genuine grid points of a positive density are dropped and the inverse map interpolates across them"
+               % (attr, text, "" if idx is None else " from the tabulated values (no exact test of a positive increment)"))
+    else:
+        chk.ob(rule, key, None, where, "%s is a selection of the table (%s); whether it can drop a grid point of a positive density is not decided" % (attr, text))
 
 
 def teq(a, b):
@@ -1545,12 +1850,20 @@ def generator(chk, repo):
         chk.analysed_unit(q)
         w = fi.where()
         # ---- density input: the stored table is the normalised trapezoid integral, aligned with x[1:]
-        v, st, _ = mini_run(repo, q, {}, {"self.method": "accum", "self.cumulative": False})
-        keys = [q + "::trapezoid-cumulative", q + "::normalised", q + "::abscissa-alignment"]
+        v, st, _ = mini_run(repo, q, {}, {"self.method": "accum", "self.cumulative": False}, elementwise=True)
+        keys = [q + "::trapezoid-cumulative", q + "::normalised", q + "::abscissa-alignment", q + "::every-grid-point-kept"]
         if isinstance(v, NoVerdict):
             _none(chk, R, keys, w, "set-up code not evaluated: %s" % v)
         else:
             pcum, nrm, xv = [st.get(k) if isinstance(st.get(k), sp.Basic) else None for k in ("self.pcum", "self.norm", "self.xvals")]
+            # element selections applied on top of the table / the abscissae are judged on their own; the formula rules read what
+            # they are applied to
+            sel_p, pcum = _peel_selection(pcum, True) if pcum is not None else ([], None)
+            sel_x, xv = _peel_selection(xv, False) if xv is not None else ([], None)
+            if pcum is None and xv is None:
+                chk.ob(R, keys[3], None, w, "no table is stored on the accum path")
+            else:
+                every_grid_point_kept(chk, R, keys[3], w, [("self.pcum", sel_p), ("self.xvals", sel_x)], (PF, X))
             tz = CUMTRAPZ(P, X)
             mid = (SLICE(P, 1, NONE_T, NONE_T) + SLICE(P, NONE_T, -1, NONE_T)) / 2
             byhand = [CUMSUM(mid * DIFF(X)), CUMSUM(mid * (SLICE(X, 1, NONE_T, NONE_T) - SLICE(X, NONE_T, -1, NONE_T)))]
